@@ -55,7 +55,7 @@ pub async fn startup(config: &ServerConfig<SslConfig>) -> anyhow::Result<()> {
             let user_manager = Arc::new(user_manager);
             // one context, and with it one salt replay cache, for every stream listener (tcp and quic) of this server
             let context = ServerContext::init(config, user_manager.clone())?;
-            tokio::join!(startup_udp::<16>(config, &user_manager, &context), startup_tcp::<16>(config, &context))
+            listeners::<16>(config, &user_manager, &context).await
         }
         CipherKind::Aes256Gcm
         | CipherKind::Aead2022Blake3Aes256Gcm
@@ -69,16 +69,21 @@ pub async fn startup(config: &ServerConfig<SslConfig>) -> anyhow::Result<()> {
             let user_manager = Arc::new(user_manager);
             // one context, and with it one salt replay cache, for every stream listener (tcp and quic) of this server
             let context = ServerContext::init(config, user_manager.clone())?;
-            tokio::join!(startup_udp::<32>(config, &user_manager, &context), startup_tcp::<32>(config, &context))
+            listeners::<32>(config, &user_manager, &context).await
         }
         CipherKind::Unknown => bail!("unknown cipher kind"),
     };
-    match res {
-        (Ok(_), Ok(_)) => Ok(()),
-        (Ok(_), Err(e)) => bail!("tcp={e}"),
-        (Err(e), Ok(_)) => bail!("udp={e}"),
-        (Err(e1), Err(e2)) => bail!("tcp={e1}, udp={e2}"),
-    }
+    res
+}
+
+/// Both listeners of an entry; one that cannot be started ends the entry (and is reported) instead of leaving the other
+/// one - which runs for ever - to serve alone.
+async fn listeners<const N: usize>(config: &ServerConfig<SslConfig>, user_manager: &Arc<ServerUserManager<N>>, context: &ServerContext<N>) -> anyhow::Result<()> {
+    tokio::try_join!(
+        async { startup_udp::<N>(config, user_manager, context).await.map_err(|e| anyhow!("udp={e}")) },
+        async { startup_tcp::<N>(config, context).await.map_err(|e| anyhow!("tcp={e}")) }
+    )
+    .map(|_| ())
 }
 
 async fn startup_tcp<const N: usize>(config: &ServerConfig<SslConfig>, context: &ServerContext<N>) -> anyhow::Result<()> {
